@@ -5,6 +5,10 @@ CONSTANTS
   Rig = "lib-lib"
   NReq = 2
   BigFrames = {}
+  NEvents = 0
+  NSpurious = 0
+  Dup = FALSE
+  SplitSmall = {}
   Faults = {"close-client", "close-server", "cancel", "drop"}
 INVARIANTS RequestsInOrder ResponsesInOrder WireOK ModesAgree AllArrive Emit
 CHECK_DEADLOCK FALSE
